@@ -10,7 +10,7 @@ props = [json.loads(l)["id"] for l in open(os.path.join(ROOT, "properties.jsonl"
 na = json.load(open(os.path.join(ROOT, "not_applicable.json"))) if os.path.exists(os.path.join(ROOT, "not_applicable.json")) else {}
 checks = []
 for p in props:
-    if p not in cfg or cfg[p].get("disabled"):
+    if p not in cfg or not cfg[p].get("ready"):
         continue
     c = cfg[p]
     checks.append({
